@@ -1,0 +1,72 @@
+//go:build verif
+// +build verif
+
+// Verification-only access to the announce/fetch state of the block fetcher (property C18 of /verif, fetcher route).
+// The fetcher's maps are owned by its loop goroutine and have no lock: every function in here must be called ON the loop
+// goroutine, i.e. from inside one of the callbacks the loop itself invokes (chainHeight, getBlock).  Nothing in here is
+// compiled into a normal build.
+
+package fetcher
+
+import (
+	"time"
+
+	"github.com/youchainhq/go-youchain/common"
+)
+
+// VerifState is a copy of the bookkeeping of the loop.
+type VerifState struct {
+	Announces map[string]int           // per peer announce counter (entries as stored, including zero or negative ones)
+	Announced map[common.Hash][]string // hash -> origins of the pending announces, in arrival order
+	Fetching  map[common.Hash]string   // hash -> origin of the announce being fetched
+	Queues    map[string]int           // per peer queued-block counter
+	Queued    map[common.Hash]string   // hash -> origin of the queued (or importing) block
+	QueueSize int                      // items in the priority queue (queued blocks whose import has not been started)
+}
+
+// VerifState copies the state.  Loop goroutine only.
+func (f *Fetcher) VerifState() VerifState {
+	s := VerifState{Announces: map[string]int{}, Announced: map[common.Hash][]string{}, Fetching: map[common.Hash]string{},
+		Queues: map[string]int{}, Queued: map[common.Hash]string{}, QueueSize: f.queue.Size()}
+	for p, n := range f.announces {
+		s.Announces[p] = n
+	}
+	for h, as := range f.announced {
+		for _, a := range as {
+			s.Announced[h] = append(s.Announced[h], a.origin)
+		}
+	}
+	for h, a := range f.fetching {
+		s.Fetching[h] = a.origin
+	}
+	for p, n := range f.queues {
+		s.Queues[p] = n
+	}
+	for h, op := range f.queued {
+		s.Queued[h] = op.origin
+	}
+	return s
+}
+
+// VerifAgeAnnounced makes every pending announce d old (time passes).  Loop goroutine only.
+func (f *Fetcher) VerifAgeAnnounced(d time.Duration) {
+	t := time.Now().Add(-d)
+	for _, as := range f.announced {
+		for _, a := range as {
+			a.time = t
+		}
+	}
+}
+
+// VerifAgeFetching makes every announce that is being fetched d old.  Loop goroutine only.
+func (f *Fetcher) VerifAgeFetching(d time.Duration) {
+	t := time.Now().Add(-d)
+	for _, a := range f.fetching {
+		a.time = t
+	}
+}
+
+// VerifLimits returns the constants of the package.
+func VerifLimits() (hashLim, blockLim, uncleDist, queueDist int, arrive, fetch time.Duration) {
+	return hashLimit, blockLimit, maxUncleDist, maxQueueDist, arriveTimeout, fetchTimeout
+}
